@@ -444,6 +444,191 @@ theorem validate_sound (c : Cfg) (P : XPrec) (ts : List XTok) (ir x : X)
     · cases h
   · cases h
 
+/-! ### Names: the model of `sanitizeName` -/
+
+
+/-- names of the ASCII identifier domain: no backslash (92) -/
+def plain (l : List Nat) : Prop := ∀ c ∈ l, c ≠ 92
+
+def f1 (c : Nat) : List Nat :=
+  if c = 10 ∨ c = 32 then [95] else if c = 34 ∨ c = 45 ∨ c = 39 then [] else [c]
+
+theorem stage1_cons (c : Nat) (r : List Nat) (h : c ≠ 92) : stage1 (c :: r) = f1 c ++ stage1 r := by
+  rw [stage1]
+  · simp only [f1]
+    split
+    · simp
+    · split <;> simp
+  · intro r' hc; exact absurd hc h
+
+theorem stage1_plain (l : List Nat) (h : plain l) : stage1 l = l.flatMap f1 := by
+  induction l with
+  | nil => simp [stage1]
+  | cons c r ih =>
+    have hc : c ≠ 92 := h c (by simp)
+    have hr : plain r := fun x hx => h x (by simp [hx])
+    rw [stage1_cons c r hc, ih hr]; simp
+
+def spUs (c : Nat) : Nat := if c = 32 then 95 else c
+
+theorem f1_spUs (c : Nat) : f1 (spUs c) = f1 c := by
+  unfold spUs f1
+  by_cases h : c = 32
+  · subst h; simp
+  · simp [h]
+
+theorem plain_map (g : Nat → Nat) (hg : ∀ c, g c = 92 → c = 92) (l : List Nat) (h : plain l) : plain (l.map g) := by
+  intro c hc
+  simp only [List.mem_map] at hc
+  obtain ⟨a, ha, rfl⟩ := hc
+  intro h92
+  exact h a ha (hg a h92)
+
+theorem flatMap_map_f1 (g : Nat → Nat) (hg : ∀ c, f1 (g c) = f1 c) (l : List Nat) :
+    (l.map g).flatMap f1 = l.flatMap f1 := by
+  induction l with
+  | nil => rfl
+  | cons c r ih => simp [hg c, ih]
+
+/-- blanks and underscores are interchangeable in a name -/
+theorem sanitize_space (l : List Nat) (h : plain l) : sanL (l.map spUs) = sanL l := by
+  have hp : plain (l.map spUs) := plain_map spUs (by intro c; unfold spUs; split <;> omega) l h
+  unfold sanL
+  rw [stage1_plain _ hp, stage1_plain _ h, flatMap_map_f1 spUs f1_spUs]
+
+/-- delete every double quote (34) -/
+def unquote : List Nat → List Nat
+  | [] => []
+  | c :: r => if c = 34 then unquote r else c :: unquote r
+
+theorem plain_unquote (l : List Nat) (h : plain l) : plain (unquote l) := by
+  induction l with
+  | nil => simpa [unquote] using h
+  | cons c r ih =>
+    have hr : plain r := fun x hx => h x (by simp [hx])
+    intro x hx
+    simp only [unquote] at hx
+    split at hx
+    · exact ih hr x hx
+    · simp only [List.mem_cons] at hx
+      rcases hx with rfl | hx
+      · exact h x (by simp)
+      · exact ih hr x hx
+
+theorem flatMap_unquote (l : List Nat) : (unquote l).flatMap f1 = l.flatMap f1 := by
+  induction l with
+  | nil => rfl
+  | cons c r ih =>
+    simp only [unquote]
+    split
+    · rename_i hc; subst hc; simp [f1, ih]
+    · simp [ih]
+
+/-- quoting does not matter -/
+theorem sanitize_quote (l : List Nat) (h : plain l) : sanL (unquote l) = sanL l := by
+  unfold sanL
+  rw [stage1_plain _ (plain_unquote l h), stage1_plain _ h, flatMap_unquote]
+
+theorem lowerC_fix (c : Nat) (h : c < 65 ∨ c > 90) : lowerC c = c := by
+  unfold lowerC; split <;> omega
+
+theorem lowerC_eq_small (c k : Nat) (hk : k < 65 ∨ (90 < k ∧ k < 97)) : lowerC c = k ↔ c = k := by
+  unfold lowerC; split <;> omega
+
+theorem f1_lower (c : Nat) : f1 (lowerC c) = (f1 c).map lowerC := by
+  unfold f1
+  have h10 := lowerC_eq_small c 10 (by omega)
+  have h32 := lowerC_eq_small c 32 (by omega)
+  have h34 := lowerC_eq_small c 34 (by omega)
+  have h45 := lowerC_eq_small c 45 (by omega)
+  have h39 := lowerC_eq_small c 39 (by omega)
+  simp only [h10, h32, h34, h45, h39]
+  split
+  · simp [lowerC]
+  · split <;> simp
+
+theorem flatMap_f1_lower (l : List Nat) : (l.map lowerC).flatMap f1 = (l.flatMap f1).map lowerC := by
+  induction l with
+  | nil => rfl
+  | cons c r ih => simp [f1_lower, ih]
+
+theorem collapse_lower (b : Bool) (l : List Nat) : collapse b (l.map lowerC) = (collapse b l).map lowerC := by
+  induction l generalizing b with
+  | nil => simp [collapse]
+  | cons c r ih =>
+    have h95 := lowerC_eq_small c 95 (by omega)
+    simp only [List.map_cons, collapse, h95]
+    split
+    · cases b <;> simp [ih, lowerC]
+    · simp [ih]
+
+theorem stripDot_ne (c : Nat) (r : List Nat) (h : c ≠ 46) : stripDot (c :: r) = c :: r := by
+  rw [stripDot]
+  intro r' hh
+  injection hh with h1 _
+  exact h h1
+
+theorem stripDot_lower (l : List Nat) : stripDot (l.map lowerC) = (stripDot l).map lowerC := by
+  cases l with
+  | nil => simp [stripDot]
+  | cons c r =>
+    have h46 := lowerC_eq_small c 46 (by omega)
+    by_cases hc : c = 46
+    · subst hc; simp [stripDot, lowerC]
+    · have : lowerC c ≠ 46 := fun h => hc (h46.mp h)
+      simp only [List.map_cons]
+      rw [stripDot_ne _ _ this, stripDot_ne _ _ hc]
+      simp
+
+theorem lowerC_idem (c : Nat) : lowerC (lowerC c) = lowerC c := by
+  unfold lowerC; split <;> (try split) <;> omega
+
+theorem upper_lower (c : Nat) : upperC (lowerC c) = upperC c := by
+  unfold upperC lowerC; split <;> (try split) <;> (try split) <;> omega
+
+theorem camel_lower (b : Bool) (l : List Nat) : camelAux b (l.map lowerC) = camelAux b l := by
+  induction l generalizing b with
+  | nil => simp [camelAux]
+  | cons c r ih =>
+    have h95 := lowerC_eq_small c 95 (by omega)
+    simp only [List.map_cons, camelAux, h95, ih, lowerC_idem, upper_lower]
+
+/-- letter case does not matter -/
+theorem sanitize_lower (l : List Nat) (h : plain l) : sanL (l.map lowerC) = sanL l := by
+  have hp : plain (l.map lowerC) := plain_map lowerC (fun c hc => (lowerC_eq_small c 92 (by omega)).mp hc) l h
+  unfold sanL
+  rw [stage1_plain _ hp, stage1_plain _ h, flatMap_f1_lower, collapse_lower, stripDot_lower, camel_lower]
+
+
+/-- canonical spelling of a name: quotes deleted, blanks as underscores, lower case -/
+def canonN (l : List Nat) : List Nat := ((unquote l).map spUs).map lowerC
+
+theorem sanitize_canon (l : List Nat) (h : plain l) : sanL (canonN l) = sanL l := by
+  have h1 := plain_unquote l h
+  have h2 : plain ((unquote l).map spUs) := plain_map spUs (by intro c; unfold spUs; split <;> omega) _ h1
+  unfold canonN
+  rw [sanitize_lower _ h2, sanitize_space _ h1, sanitize_quote _ h]
+
+/-- **Names.** Two spellings of a name that differ only in letter case, blanks vs underscores and
+quoting are mapped to the same Python identifier. -/
+theorem sanitize_equiv (a b : List Nat) (ha : plain a) (hb : plain b) (h : canonN a = canonN b) :
+    sanL a = sanL b := by
+  rw [← sanitize_canon a ha, ← sanitize_canon b hb, h]
+
+/-- Documented limits of "any naming": `-` and `'` vanish, a trailing / leading / doubled underscore
+vanishes, an underscore in front of a digit vanishes, one leading dot vanishes — such DISTINCT XMILE
+names collapse to one identifier; and `sanitizeName` is not idempotent (`a_b ↦ aB ↦ ab`), which is
+harmless only because the compiler applies it once per name. -/
+theorem sanitize_collisions :
+    sanL [97, 45, 98] = sanL [97, 98] ∧            -- a-b  ~ ab
+    sanL [105, 116, 39, 115] = sanL [105, 116, 115] ∧   -- it's ~ its
+    sanL [97, 95] = sanL [97] ∧ sanL [95, 97] = sanL [97] ∧   -- a_ ~ a, _a ~ a
+    sanL [97, 95, 95, 98] = sanL [97, 95, 98] ∧    -- a__b ~ a_b
+    sanL [97, 95, 49] = sanL [97, 49] ∧            -- a_1 ~ a1
+    sanL [46, 97] = sanL [97] ∧                    -- .a ~ a
+    sanL [97, 95, 98] ≠ sanL [97, 98] ∧            -- a_b and ab stay distinct
+    sanL (sanL [97, 95, 98]) ≠ sanL [97, 95, 98] := by decide
+
 /-! ### The property -/
 
 /-- **C03 at full strength** for generator configuration `c` and XMILE operator table `P`:
@@ -455,7 +640,8 @@ theorem validate_sound (c : Cfg) (P : XPrec) (ts : List XTok) (ir x : X)
     to them, the IR kept the token sequence and renders to the same text) the text emitted for the
     IR denotes the reference reading;
 (3) every builtin of the vocabulary is present and denotes its intended operation;
-(4) an equation using a function outside the table raises instead of yielding a value. -/
+(4) an equation using a function outside the table raises instead of yielding a value;
+(5) spellings of a name that differ in case, blanks/underscores, quoting give the same identifier. -/
 def C03_full (c : Cfg) (P : XPrec) : Prop :=
   (∀ (x : X) (init : Bool), XWL P x = true → known c x = true →
      Parses (gen c init x) (trans c P init x) ∧
@@ -468,14 +654,15 @@ def C03_full (c : Cfg) (P : XPrec) : Prop :=
   ((∀ t ∈ c.fns, ∀ s, specFn t.cls t.arity = some s →
      ∀ (α : Type) (C : Carrier α) (ρ : Nat → α), eval C ρ (shapeOf t) = eval C ρ s) ∧
    vocabOK c = true) ∧
-  (∀ x : X, known c x = false → compile c x = none)
+  (∀ x : X, known c x = false → compile c x = none) ∧
+  (∀ a b : List Nat, plain a → plain b → canonN a = canonN b → sanL a = sanL b)
 
 theorem C03_full_of_good (c : Cfg) (P : XPrec) (hP : precAgree P = true) (h : good c P = true)
     (hS : shapesOK c = true) : C03_full c P := by
   unfold good at h
   simp only [Bool.and_eq_true] at h
   obtain ⟨⟨⟨⟨⟨⟨hO, hF⟩, hN⟩, _hI⟩, hSp⟩, hV⟩, hU⟩ := h
-  refine ⟨?_, ?_, ⟨?_, hV⟩, ?_⟩
+  refine ⟨?_, ?_, ⟨?_, hV⟩, ?_, sanitize_equiv⟩
   · intro x init hx hk
     exact ⟨prec_agree c P hP hO hF hN x init hx hk, fun α C => eval_trans c P hS C x init⟩
   · intro ts ir x hv hk
@@ -507,7 +694,7 @@ theorem C03_partial (c : Cfg) (P : XPrec) (hS : shapesOK c = true) :
 theorem C03_witness_unknown (c : Cfg) (P : XPrec) (h : c.unknownBuiltinRaises = false)
     (hf : findFn c "foo" 1 = none) : ¬ C03_full c P := by
   intro hfull
-  have := hfull.2.2.2 (.call "foo" [.id "a"]) (by simp [known, hf])
+  have := hfull.2.2.2.1 (.call "foo" [.id "a"]) (by simp [known, hf])
   simp [compile, h] at this
 
 theorem xmile_prec_agrees : precAgree xmilePrec = true := by decide
@@ -558,5 +745,7 @@ example : opOK demoCfg xmilePrec = true ∧ fnsOK demoCfg = true ∧ notOK demoC
 #print axioms C03_witness_bare_sqrt
 #print axioms xmile_prec_agrees
 #print axioms eval_trans
+#print axioms sanitize_equiv
+#print axioms sanitize_collisions
 
 end Bptk.C03
